@@ -173,10 +173,25 @@ def gen_pool(rng):
                  'frame': rng.pick(gen.SKY_FRAMES)})
     for w in rng.sample(gen.WCS_MENU, 3):
         add('wcs', w)
+    # coordinates in less common spellings
+    add('sky0', {'t': 'sky', 'lon': 150.0, 'lat': 2.2, 'frame': 'fk5',
+                 'equinox': 'J1975'})
+    add('skyN', {'t': 'sky', 'lon': [10.0, 10.1, 201.3], 'lat': [20.0, 20.1, -43.0],
+                 'frame': 'galactic'})
+    add('pixN', {'t': 'pix', 'x': {'t': 'arr', 'v': [3, 7, 11], 'dtype': 'int64'},
+                 'y': {'t': 'arr', 'v': [2, 9, 30], 'dtype': 'int64'}})
+    add('skyreg', {'t': 'region', 'cls': 'CircleSkyRegion', 'params': {
+        'center': {'t': 'sky', 'lon': 150.0, 'lat': 2.2, 'frame': 'fk5',
+                   'equinox': 'J1975'},
+        'radius': {'t': 'q', 'v': 0.002, 'u': 'rad'}}})
     add('image', {'t': 'image', 'shape': [40, 50], 'kind': 'float', 'seed': 1})
     add('image', {'t': 'image', 'shape': [40, 50], 'kind': 'int', 'seed': 2})
     add('image', {'t': 'image', 'shape': [30, 30], 'kind': 'float', 'seed': 3,
                   'unit': 'Jy'})
+    add('image', {'t': 'image', 'shape': [40, 50], 'kind': 'int', 'seed': 4,
+                  'dtype': 'uint8'})
+    add('image', {'t': 'image', 'shape': [40, 50], 'kind': 'float', 'seed': 5,
+                  'dtype': 'float32'})
     fits_ok = [c for c in gen.FITS_CLASSES]
     for classes, exclude in ((sorted(gen.ALL_CLASSES), ()),
                              (sky, ()), (fits_ok, ('component',)),
@@ -185,6 +200,9 @@ def gen_pool(rng):
         add('regions', {'t': 'regions', 'v': [
             gen.simple_region(rng, classes, meta_exclude=exclude)
             for _ in range(n)]})
+    # a list that holds the same region object twice, and an empty list
+    add('regions', {'t': 'regions_dup', 'v': [
+        gen.simple_region(rng, pix), gen.simple_region(rng, pix)]})
     for f in rng.sample(DS9_FILES, 2):
         add('text:ds9', {'t': 'datafile', 'path': 'io/ds9/tests/data/' + f})
     add('text:ds9', {'t': 'lit', 'v': _ds9_text(rng)})
@@ -444,7 +462,11 @@ class Exec:
                'extras_changed': changed,
                'outcome': out[:1] + ([out[1], out[2]] if out[0] != 'ok'
                                      else []),
-               'digest': fpc([out, wrec]), 'warnings': len(wrec),
+               # a raised call is compared by exception class only: message
+               # texts may legitimately carry run-specific detail (e.g. the
+               # name of a temporary file)
+               'digest': fpc([out if out[0] == 'ok' else out[:2], wrec]),
+               'warnings': len(wrec),
                'fault': k, 'fired': fired}
         if want_canon:
             rec['canon'] = [out, wrec]
@@ -1034,7 +1056,9 @@ class Exec:
                                           e.get('fired'), e.get('stored'))
                                          for e in events]]),
                 'digest': fpc([[(e.get('digest'), e.get('resolved'))
-                                for e in events], violations, known])}
+                                for e in events],
+                               [[v['oracle'], v['step'], v['op']]
+                                for v in violations + known]])}
 
     def check_pool(self, j, rec, indices, stats):
         for i in sorted(indices):
@@ -1570,7 +1594,9 @@ def worker_post(plan, res, ctx, fork_call, tier_cfg):
             v['detail'] = (v['detail'] + f'; input {str(src)[:200]}; '
                            f'difference (after history vs pristine): '
                            f'{diff(mine, ref)}')[:900]
-    res['digest'] = fpc([res['digest'], res['violations'], res['known_hits']])
+    res['digest'] = fpc([res['digest'],
+                         [[v['oracle'], v['step'], v['op']]
+                          for v in res['violations'] + res['known_hits']]])
     return res
 
 
